@@ -1,2 +1,23 @@
-(* C03 -- statements only. *)
-From UP Require Import Base.Chars Model.Uri.
+(* C03 -- statements only.
+   Here: the part of C03 that is about the parsed object ("on success every reported text range
+   lies inside the input").  Non-interference with what follows the range and the absence of
+   residue on failure are statements about the tape-level / memory-level models, not stated in this
+   file yet. *)
+From Coq Require Import List NArith Bool String.
+From UP Require Import Base.Chars Model.Uri Model.Parse Spec.Unparse Proofs.ParseWf.
+From UP Require Proofs.ResolveProofs.
+Import ListNotations.
+
+(* Every text the object reports (scheme, user info, host, IPvFuture text, port, every segment,
+   query, fragment) is a contiguous piece of the input.  (Property C02_unparse says more: the pieces
+   are consecutive and separated by their delimiters only.)  In the model a component is a value,
+   not a pointer pair; that the C ranges point into the caller's buffer -- or, for an empty text, at
+   the private placeholder -- is checked on the implementation by gen/c03.py. *)
+Theorem C03_ranges_inside : forall s u, parse s = POk u -> components_inside u s.
+Proof. exact parse_inside. Qed.
+Print Assumptions C03_ranges_inside.
+
+(* non-vacuity *)
+Local Open Scope string_scope.
+Example C03_ex : exists u, parse (ResolveProofs.txt "http://u@h:1/a/b?q#f") = POk u /\ pathSegs u <> [].
+Proof. eexists. split; [vm_compute; reflexivity|discriminate]. Qed.
